@@ -56,6 +56,10 @@ func (db *DB) Lookup(key []byte) ([36]byte, error) {
 
 // LookupBucket returns a handle to the bucket that might contain the given key.
 func (db *DB) LookupBucket(key []byte) (*Bucket, error) {
+	if db.Header.NumBuckets == 0 {
+		// BucketHash divides by the number of buckets.
+		return nil, fmt.Errorf("index has no buckets")
+	}
 	return db.GetBucket(db.Header.BucketHash(key))
 }
 
